@@ -131,12 +131,67 @@ theorem verdict_ok_iff (b : Bool) (e : String) : (if (!b) = true then Res.err e 
     return names
 
 
+FCLS = "{G G2 S L : Type} [Add G] [Sub G] [Neg G] [Zero G] [SMul Int G] [Add S] [Sub S] [Mul S] [Neg S] [Zero S] [One S] [BEq G2] [Inv S] [BEq S]"
+FPAR = ("(toInt : S → Int) (root : Int → S) (rootErr : Int → Bool) (mS : S → List UInt8) (mG : G → List UInt8) "
+        "(fsC : String → List (List UInt8) → List (List UInt8) → List UInt8) (frB : List UInt8 → S) (pcf : List G → L → Bool)")
+
+
+def ff_file(pkg):
+    ns, sh = f"fflonk_{pkg}", f"shplonk_{pkg}"
+    names = [f"C17gen_{pkg}_ff_inner_s1", f"C17gen_{pkg}_ff_inner_s2", f"C17gen_{pkg}_ff_t1_m1", f"C17gen_{pkg}_ff_t2_m1"]
+    body = HEAD + f"""import GnarkVerif.Gen.Verifier.Fflonk_{pkg}
+import GnarkVerif.Gen.Verifier.Shplonk_{pkg}
+import Mathlib.Tactic.SplitIfs
+/-
+C17 (fflonk), tie T for ecc/{pkg.replace("_", "-")}/fflonk/fflonk.go: `BatchVerify` as REGENERATED from the Go text for ONE pack of t = 1 resp. t = 2
+polynomials opened at one point (Gen/Verifier/Fflonk_{pkg}.lean; `eval`, `extendSet` executed in place; `getIthRootOne` = PARAMETERS
+ithRootOne / ithRootOneErr; the call of shplonk.BatchVerify is a call of the shplonk def translated from shplonk.go at the extended shape).
+`_ff_inner_*`: the shplonk def emitted into the fflonk file IS the def of Gen/Verifier/Shplonk_{pkg}.lean at shape (1,[1]) resp. (1,[2]) (`rfl`), so
+the theorems of Props/C17_gen_sh_{pkg}.lean apply to it. `_ff_t*_m1`: over ANY types the Go text returns nil iff the root exists, every folded
+claimed value equals Horner of the pack's claimed values at x·ωˡ, and the inner SHPLONK verification on the extended points [x, x·ω, …] returns nil.
+No equality with Model/ArgPairing.lean `ffVerify` is proved here.
+-/
+set_option linter.unusedVariables false
+open GV GV.Gen.Verifier
+namespace GV.C17gen
+
+theorem C17gen_{pkg}_ff_inner_s1 {FCLS} :
+    {ns}.shplonk_BatchVerify_k1 (G := G) (G2 := G2) (S := S) (L := L) = {sh}.BatchVerify_s1 (G := G) (G2 := G2) (S := S) (L := L) := rfl
+
+theorem C17gen_{pkg}_ff_inner_s2 {FCLS} :
+    {ns}.shplonk_BatchVerify_n1_2_1_1_2 (G := G) (G2 := G2) (S := S) (L := L) = {sh}.BatchVerify_s2 (G := G) (G2 := G2) (S := S) (L := L) := rfl
+
+theorem C17gen_{pkg}_ff_t1_m1 {FCLS} {FPAR}
+    (W W' : G) (s0 a : S) (d0 : G) (x : S) (q0 q1 : G2) (g1 : G) (lines : L) :
+    {ns}.BatchVerify_t1_m1 toInt root rootErr mS mG fsC frB pcf W W' s0 a d0 x q0 q1 g1 lines = Res.ok ↔
+      (rootErr 1 = false ∧ ((0 : S) * x + a == s0) = true ∧
+        {sh}.BatchVerify_s1 toInt mS mG fsC frB pcf W W' s0 d0 x q0 q1 g1 lines = Res.ok) := by
+  simp only [{ns}.BatchVerify_t1_m1, C17gen_{pkg}_ff_inner_s1]
+  split_ifs <;> simp_all
+
+theorem C17gen_{pkg}_ff_t2_m1 {FCLS} {FPAR}
+    (W W' : G) (s0 s1 a b : S) (d0 : G) (x : S) (q0 q1 : G2) (g1 : G) (lines : L) :
+    {ns}.BatchVerify_t2_m1 toInt root rootErr mS mG fsC frB pcf W W' s0 s1 a b d0 x q0 q1 g1 lines = Res.ok ↔
+      (rootErr 2 = false ∧ (((0 : S) * x + b) * x + a == s0) = true ∧
+        (((0 : S) * (x * root 2) + b) * (x * root 2) + a == s1) = true ∧
+        {sh}.BatchVerify_s2 toInt mS mG fsC frB pcf W W' s0 s1 d0 x (x * root 2) q0 q1 g1 lines = Res.ok) := by
+  simp only [{ns}.BatchVerify_t2_m1, C17gen_{pkg}_ff_inner_s2]
+  split_ifs <;> simp_all
+
+end GV.C17gen
+"""
+    open(os.path.join(PROPS, f"C17_gen_ff_{pkg}.lean"), "w").write(body)
+    return names
+
+
 def main():
     names = []
     for pkg in PKGS:
         names += pkg_file(pkg)
+    for pkg in PKGS:
+        names += ff_file(pkg)
     open(os.path.join(PROPS, "C17_gen_sh.lean"), "w").write(
-        HEAD + "".join(f"import GnarkVerif.Props.C17_gen_sh_{p}\n" for p in PKGS) +
+        HEAD + "".join(f"import GnarkVerif.Props.C17_gen_sh_{p}\nimport GnarkVerif.Props.C17_gen_ff_{p}\n" for p in PKGS) +
         "/-\nC17 tie T (SHPLONK BatchVerify): see Props/C17_gen_sh_<curve>.lean. This root module only collects the 7 instances.\n-/\n")
     open(os.path.join(AUDIT, "C17_gen_sh.lean"), "w").write(
         "import GnarkVerif.Props.C17_gen_sh\nopen GV.C17gen\n" + "".join(f"#print axioms {n}\n" for n in names))
